@@ -8,6 +8,7 @@ import (
 	"os"
 	"path/filepath"
 	"regexp"
+	"slices"
 	"sync"
 	"testing"
 	"time"
@@ -56,6 +57,8 @@ type wireSub struct {
 	done bool // errored
 	// selective: a subscriber with a selector may legitimately see nothing of what is written after an outage
 	selective bool
+	// idq: the ids an ID selector of the subscriber admits (empty: no ID selector)
+	idq []int
 }
 
 func realWireRound(t *testing.T, tr *vh.Trace, tid string, rng *rand.Rand) {
@@ -208,7 +211,7 @@ func realWireRound(t *testing.T, tr *vh.Trace, tid string, rng *rand.Rand) {
 	}
 
 	add := func(kindName, mode string, id int, filt bool, idq ...int) {
-		s := &wireSub{w: len(subs) + 1, kind: kindName, id: id, selective: filt || len(idq) > 0}
+		s := &wireSub{w: len(subs) + 1, kind: kindName, id: id, selective: filt || len(idq) > 0, idq: idq}
 		ch := make(chan state.Event)
 		agg := make(chan []state.Event)
 
@@ -341,7 +344,59 @@ func realWireRound(t *testing.T, tr *vh.Trace, tid string, rng *rand.Rand) {
 	}
 
 	randomWrites(2)
-	settle(5 * time.Second)
+
+	// final barrier: the trace may end only when every live subscriber has demonstrably caught up - the client's
+	// re-establishment back-off is real time, a subscriber whose selector hides the writes made after an outage shows no sign
+	// of life by itself. Every id gets a last update that carries the label (visible to the label selector, to every ID selector
+	// that admits the id and to the single-resource watch of the id); each subscriber has to deliver the marker of the last id it
+	// can see (or an Errored event).
+	for id := 1; id <= 3; id++ {
+		if _, exists := vers[id]; exists {
+			write("update", id, true)
+		} else {
+			write("create", id, true)
+		}
+	}
+
+	barrier := time.Now().Add(90 * time.Second)
+
+	for time.Now().Before(barrier) {
+		caught := true
+
+		for _, s := range subs {
+			last := 3
+
+			switch {
+			case s.kind == "one":
+				last = s.id
+			case len(s.idq) > 0:
+				last = slices.Max(s.idq)
+			}
+
+			s.mu.Lock()
+
+			ok := s.done
+
+			for _, e := range s.buf {
+				if e.Type == state.Errored ||
+					(e.Resource != nil && e.Resource.Metadata().ID() == idNames[last] && vh.VersionInt(e.Resource.Metadata().Version()) == vers[last]) {
+					ok = true
+				}
+			}
+
+			s.mu.Unlock()
+
+			caught = caught && ok
+		}
+
+		if caught {
+			break
+		}
+
+		time.Sleep(50 * time.Millisecond)
+	}
+
+	settle(2 * time.Second)
 
 	emit(Line{Ev: "end"})
 
